@@ -32,3 +32,65 @@ fn iterator_step() {
         }
     }
 }
+
+/// one `next()` step of the stream iterator over command set `T` from an arbitrary state; the
+/// step calls the derive-generated `T::parse_one` on every byte string (every CID, every
+/// truncation point, fixed- and variable-length commands)
+fn iterator_step_set<'a, T: MacCommandSet<'a>>(b: &'a [u8; 255]) {
+    let len: usize = kani::any();
+    kani::assume(len <= 255);
+    let mut it: MacCommands<'a, T> = MacCommands::new(&b[..len]);
+    let errored: bool = kani::any();
+    it.errored = errored;
+    match it.next() {
+        None => {
+            assert!(errored || len == 0, "C03: the iterator ends only when exhausted or after an error");
+            assert!(it.data.len() == len && it.errored == errored, "C03: a finished iterator stays put");
+        }
+        Some(Ok(_)) => {
+            assert!(!errored, "C03: nothing is yielded after an error (fused)");
+            assert!(it.data.len() < len, "C03: every yielded command consumes at least one byte and lies inside the input");
+            assert!(!it.errored, "C03: no error recorded");
+            kani::cover!(it.data.len() + 1 < len, "command with a payload");
+        }
+        Some(Err(e)) => {
+            assert!(!errored, "C03: at most one error is yielded");
+            assert!(it.errored, "C03: the iterator is fused after the error");
+            match e {
+                ParseError::Truncated { cid } => assert!(cid == b[0], "C03: truncated error names the CID"),
+                ParseError::UnknownCid(cid) => assert!(cid == b[0], "C03: unknown CID error names the CID"),
+            }
+        }
+    }
+}
+
+macro_rules! set_step {
+    ($name:ident, $t:ty) => {
+        #[kani::proof]
+        #[kani::unwind(8)]
+        fn $name() {
+            let b: [u8; 255] = kani::any();
+            iterator_step_set::<$t>(&b);
+        }
+    };
+}
+//@h id=iterator_step_uplink props=C03 tier=quick build=enc cost=40 timeout=900
+//@bounds as iterator_step, uplink LoRaWAN MAC command set
+//@encodes MacCommands::next, UplinkMacCommand::parse_one (derive-generated)
+set_step!(iterator_step_uplink, UplinkMacCommand<'_>);
+//@h id=iterator_step_mc_downlink props=C03 tier=quick build=enc cost=40 timeout=900
+//@bounds as iterator_step, multicast remote-setup downlink set
+//@encodes MacCommands::next, multicast::DownlinkRemoteSetup::parse_one
+set_step!(iterator_step_mc_downlink, crate::multicast::DownlinkRemoteSetup<'_>);
+//@h id=iterator_step_mc_uplink props=C03 tier=quick build=enc cost=40 timeout=900
+//@bounds as iterator_step, multicast remote-setup uplink set (McGroupStatusAns is variable-length: its length comes from the status byte)
+//@encodes MacCommands::next, multicast::UplinkRemoteSetup::parse_one, McGroupStatusAnsPayload::len
+set_step!(iterator_step_mc_uplink, crate::multicast::UplinkRemoteSetup<'_>);
+//@h id=iterator_step_dut_downlink props=C03 tier=quick build=enc cost=40 timeout=900
+//@bounds as iterator_step, certification (TS009) downlink set (two variable-length commands taking the rest of the stream)
+//@encodes MacCommands::next, certification::DownlinkDUTCommand::parse_one
+set_step!(iterator_step_dut_downlink, crate::certification::DownlinkDUTCommand<'_>);
+//@h id=iterator_step_dut_uplink props=C03 tier=quick build=enc cost=40 timeout=900
+//@bounds as iterator_step, certification (TS009) uplink set
+//@encodes MacCommands::next, certification::UplinkDUTCommand::parse_one
+set_step!(iterator_step_dut_uplink, crate::certification::UplinkDUTCommand<'_>);
